@@ -1218,6 +1218,10 @@ func (v *variantCallPacket) UnmarshalBinary(data []byte) (err error) {
 			return oe.WithMessage(err, "unmarshal command object")
 		}
 		p = p[v.CommandObject.Size():]
+	} else {
+		// No command object on the wire: drop the preset one, so that Size()
+		// is what was consumed and the caller's next field is sliced in range.
+		v.CommandObject = nil
 	}
 
 	return
